@@ -17,7 +17,7 @@ LEVEL_TEXT = ("Machine-checked Lean proof, for every byte string, that the encod
               "index-for-index model of the decoder never indexes or slices out of range; the model of encodeGrpcMessage/"
               "decodeGrpcMessage and the model of Go's utf8.DecodeRune/encoderune/ValidString are diffed against the real functions on every run.")
 LEVEL_NOTE = ("Trusted: Lean kernel; the hand models lean/GrpcModel/Model/GrpcMessage.lean and lean/GrpcModel/Prim/Utf8.lean (both tied by "
-              "differential runs: every 1- and 2-byte string, every first byte with boundary continuation bytes for 3/4-byte forms, every "
+              "differential runs: every 1-byte string, 2-byte strings with one byte on a class boundary (all of them in the thorough tier), every first byte with boundary continuation bytes for 3/4-byte forms, every "
               "'%XY' pair, biased random). Reading: 'invalid UTF-8 sequences decode to U+FFFD' is Go's rule of one U+FFFD per invalid byte "
               "(= string([]rune(m)), also diffed); 'valid UTF-8' is utf8.ValidString, proved equal to the Unicode Table 3-7 grammar. "
               "fmt's %02X and strconv.ParseUint(s,16,8) on 2 bytes are modelled and exercised exhaustively.")
@@ -104,7 +104,7 @@ def batches(comp, ops, tag, chunk=5000):
 
 
 def gen(rng, tier):
-    n_rand = {"quick": 5000, "thorough": 200000, "search": 80000}[tier]
+    n_rand = {"quick": 3000, "thorough": 200000, "search": 80000}[tier]
     full = tier != "quick"
     # ---------------------------------------------------------------- utf8 primitive
     dec = set()
